@@ -132,7 +132,7 @@ def main(run):
                     yt = rnd.choice([np.int64(int(yt) + 1), np.float32(yt), np.float64(yt), np.int32(int(yt) + 2)])
                 elif kind == "bin" and isinstance(yt, bool):
                     yt = np.bool_(yt)
-            w = rnd.choice(wrappers)
+            w = wrappers[0] if rnd.random() < 0.55 else rnd.choice(wrappers)     # (one wrapper takes most calls: counters inside a wrapper get past 1024)
             if i in (40, 200) and len(wrappers) < 5:
                 # checkpointing: a deep copy / pickle round trip of a loss function (with its own copy of the metric) is used from now
                 # on next to the originals; it must behave like them
@@ -242,6 +242,105 @@ def main(run):
             run.sample({"metric": name, "kind": kind, "dict_input": dict_input, "sign": sign, "calls": ncalls,
                         "wrappers_sharing_metric": len(wrappers), "explainer_sharing": expl is not None,
                         "last_call": {"y_true": yt, "y_pred": yp, "loss": got}})
+    # ---- CONFIGURED metrics (non-default constructor arguments) and the user's OWN metric classes: "a fresh metric" means a fresh
+    # instance configured the same way
+    class TrueClassProbability(Metric):
+        """A user's dict-based, bigger-is-better metric: mean probability given to the true class."""
+        bigger_is_better = True
+
+        def __init__(self):
+            self.s, self.n = 0.0, 0
+
+        def update(self, y_true, y_pred):
+            self.s += y_pred.get(y_true, 0.0)
+            self.n += 1
+            return self
+
+        def revert(self, y_true, y_pred):
+            self.s -= y_pred.get(y_true, 0.0)
+            self.n -= 1
+            return self
+
+        def get(self):
+            return self.s / self.n if self.n else 0.0
+
+        def works_with(self, model):
+            return True
+
+    class MeanAbsDeviation(Metric):
+        """A user's single-value, smaller-is-better metric."""
+        bigger_is_better = False
+
+        def __init__(self, scale=1.0):
+            self.scale, self.s, self.n = scale, 0.0, 0
+
+        def update(self, y_true, y_pred):
+            self.s += abs(y_true - y_pred) * self.scale
+            self.n += 1
+            return self
+
+        def revert(self, y_true, y_pred):
+            self.s -= abs(y_true - y_pred) * self.scale
+            self.n -= 1
+            return self
+
+        def get(self):
+            return self.s / self.n if self.n else 0.0
+
+        def works_with(self, model):
+            return True
+    configured = [("Precision(pos_val=0)", lambda: M.Precision(pos_val=0), "bin01"), ("Recall(pos_val=2)", lambda: M.Recall(pos_val=2), "lab"),
+                  ("F1(pos_val='a')", lambda: M.F1(pos_val="a"), "str"), ("FBeta(beta=2)", lambda: M.FBeta(beta=2), "bin"),
+                  ("FBeta(beta=0.5, pos_val=0)", lambda: M.FBeta(beta=0.5, pos_val=0), "bin01"), ("MacroFBeta(beta=2)", lambda: M.MacroFBeta(beta=2), "lab"),
+                  ("Jaccard(pos_val=1)", lambda: M.Jaccard(pos_val=1), "bin01"), ("user:TrueClassProbability", TrueClassProbability, "dict"),
+                  ("user:MeanAbsDeviation(scale=3)", lambda: MeanAbsDeviation(scale=3.0), "reg")]
+    for ci, (cname, factory, dom) in enumerate(configured):
+        if ci % nsh != sh:
+            continue
+        try:
+            m = factory()
+            lf = validate_loss_function(m)
+        except Exception as ex:
+            run.other_error(f"configured:{cname}:{type(ex).__name__}")
+            continue
+        sign = -1.0 if getattr(m, "bigger_is_better", False) else 1.0
+        before = m.get()
+        for i in range(80):
+            if dom == "dict":
+                labs = ["a", "b", "c"]
+                yt = rnd.choice(labs)
+                pr = [rnd.random() + 0.01 for _ in labs]
+                yp = {l_: v_ / sum(pr) for l_, v_ in zip(labs, pr)}
+                arg = yp
+            elif dom == "reg":
+                yt, yp = rnd.uniform(-3, 3), {"output": rnd.uniform(-3, 3)}
+                arg = yp["output"]
+            else:
+                labs = {"bin": [False, True], "bin01": [0, 1], "lab": [0, 1, 2], "str": ["a", "b"]}[dom]
+                yt, yp = rnd.choice(labs), {"output": rnd.choice(labs)}
+                arg = yp["output"]
+            try:
+                fresh = factory()
+                fresh.update(yt, arg)
+                exp = fresh.get() * sign
+            except Exception:
+                run.count("pairs-outside-metric-domain")
+                continue
+            try:
+                got = lf(yt, yp)
+            except Exception as ex:
+                run.violation("loss-raises", f"{cname}: loss({yt!r}, {yp!r}) raised {type(ex).__name__}: {ex}", {"metric": cname, "configured": True})
+                break
+            run.ok(kind="configured-metric")
+            replay = {"metric": cname, "configured": True, "call": i, "y_true": yt, "y_pred": yp}
+            if not same(got, exp):
+                run.violation("not-fresh-value", f"{cname} call {i}: loss({yt!r}, {yp!r}) = {got!r}, a fresh metric configured the same way gives {exp!r}", replay)
+                break
+            if not same(m.get(), before):
+                run.violation("metric-state-changed", f"{cname} call {i}: metric.get() was {before!r}, now {m.get()!r}", replay)
+                break
+            if got == got and got != 0:
+                run.nontriv(("configured", cname, repr(yt), repr(sorted(yp.items(), key=repr))))
     # ---- metrics SHARING a confusion matrix (river's cm= argument), each used as a loss: every loss still returns the value of
     # a fresh stand-alone metric after the single pair, and neither metric's own value moves - whatever the construction order
     cm_classes = [n for n in accepted if "cm" in inspect.signature(getattr(M, n).__init__).parameters]
